@@ -604,3 +604,12 @@ Proof.
   split; [intros k v i H; discriminate|]. split; [vm_compute; reflexivity|].
   split; [reflexivity|]. split; [reflexivity|]. exists 0. discriminate.
 Qed.
+
+(* when the analysis finds nothing to import, the whole auto_import call is a no-op on the whole
+   state (namespaces, sys.modules, attributes, both caches, the log of executed code) *)
+Theorem no_missing_noop : forall w idx ms st,
+  (forall m, In m ms -> needs st m = false) -> auto_import w idx (Some ms) st = (st, RTrue).
+Proof.
+  intros w idx ms st. simpl. induction ms as [|m r IH]; intro H; simpl; [reflexivity|].
+  unfold auto_import_symbol. rewrite (H m (or_introl eq_refl)). simpl. apply IH. intros m0 Hm. apply H. right. assumption.
+Qed.
